@@ -168,6 +168,18 @@ CLAIMS = {
         "strings are the only typing contract.",
         "DESIGN.md section 3, C18",
     ),
+    "C20": (
+        "partial evaluation of runner construction/results/upgrade on a lattice of cards with before/after snapshots and aliasing checks",
+        "Decides: over 5 FNS x target spellings x TMC x structure-function/cross-section mixes x legacy card spellings, folding "
+        "Runner(theory, observables), get_result() twice, a second construction from the same dict objects and compatibility.update twice leaves "
+        "the caller's dictionaries (nested kinematics lists and target dicts included) key- and value-identical to a snapshot at every stage; "
+        "the output echoes cards equal to those given, the requested grid, eko's flavour-basis pids, the projectile used and every point at its "
+        "requested kinematics in request order; each get_result() is a fresh copy sharing no container with another call, the runner or the "
+        "caller; the legacy upgrade is idempotent. NOT decided: mutation inside external libraries.",
+        "Trusted: CPython ast; yadsa partial evaluator (dict/list aliasing semantics are the host interpreter's); eko/numpy constructors do not "
+        "mutate the lists they are given.",
+        "DESIGN.md section 3, C20",
+    ),
 }
 
 NA = {
